@@ -7,17 +7,20 @@
   Bookkeeping is core Lean (`Nat`, `Int`, `List`, `Option`); the last section states what the
   appended component list means as a matrix (`Found/LinAlg.embed`, `Found/Perm.permMatL`).
 
-  Three behaviours of the code as found are selected by the flags `fixName` / `fixPS` / `fixPorts`
-  `= false`; the main model (all `true`) is the repaired behaviour (fixes/C10-*.diff):
+  Four behaviours of the code as found are selected by the flags `RFlags.name` / `RFlags.skip` / `fixPS` /
+  `fixPorts` `= false`; the main model (all `true`) is the repaired behaviour (fixes/C10-*.diff):
   * `resolve`: `{'port name': int}` on a one-mode port stored the pair and then raised
     "imbalanced ports" because `r_idx` stayed `[]`;
+  * `resolve`: a dictionary item with an int key and a list / port-name value (`{0: [1]}`, `{0: 'port'}`)
+    matched neither branch of the loop and was silently ignored — the mapping was judged on its other items
+    only (a legal `{0: [1]}` refused as "wrong size", an item too many accepted);
   * `_compose_experiment`: the carried-over post-selection was permuted with
     `apply_permutation(perm_inv, c_first)` *before* `shift_modes(c_first)`, i.e. on the wrong modes
     whenever the first impacted mode is not 0;
   * `_compose_experiment`: a multi-mode port of the added processor was re-attached on
     `port_mode … port_mode+m-1` whatever the mapping did to its other modes; it could then cover a
     new herald mode and make `_add_herald` raise `UnavailableModeException` on a legal mapping.
-  (A fourth defect, in `simplification._update_adjacent`, makes `simplify` crash on legal mappings;
+  (A fifth defect, in `simplification._update_adjacent`, makes `simplify` crash on legal mappings;
   the simplifier is not modelled here — it must not change the matrix — see fixes/C10-simplify-adjacent.diff.)
 -/
 import PercevalModel.Found.Perm
